@@ -1,16 +1,124 @@
 # Per-property claims. text = what assurance the check gives; note = what is assumed/trusted.
-NOTES = ('Solver-based checking of the real code (Kani/CBMC). No hooks in /repo; harness modules live in /verif/harness and are '
-         'injected into a scratch copy of /repo on every run. Exit 2 (time-out, out of memory, harness out of date, non-reproducing '
-         'counterexample) is inconclusive and never counted as a pass. See DESIGN.md.')
+NOTES = ('Solver-based checking of the real code (Kani 0.68 / CBMC 6.11 / CaDiCaL). No hooks in /repo; harness modules live in /verif/harness and are '
+         'injected into a scratch copy of /repo on every run (cfg(kani) only). Quick tier = the cheap obligations whose primary property this is; thorough '
+         'tier = every obligation that lists the property, plus the longer scripts. Exit 2 (time-out, out of memory, harness out of date, non-reproducing '
+         'counterexample) is inconclusive and never counted as a pass. Repaired defects and the two recorded findings are in known_findings.json; see DESIGN.md.')
 
-PENDING = 'check not built yet in this session (to be claimed; see DESIGN.md section 5)'
+COMMON_NOTE = ('Trusted: Kani MIR->goto translation and std models, CBMC, CaDiCaL. Bounds (window size 4, script lengths, concrete shapes) are listed per '
+               'obligation in the evidence file; whatever needs more operations, slots or a whole two-endpoint run is outside the claim. ')
 
 CLAIMED = {
  'C01': {
-  'text': 'Bounded model checking of the receive path: 20-bit/32-bit id window arithmetic decided for all operands at full width; '
-          '(more obligations are added as they are built)',
-  'note': 'Kani/CBMC/CaDiCaL trusted; bounds per harness in the evidence file; composition over components is prose (DESIGN.md section 4)',
+  'text': 'Bounded model checking of the receive path of the real code: 20-bit/32-bit window arithmetic for all operands; one step of the frame window from ANY state '
+          '(a frame is processed at most once and never after a later one, across 2^32 wrap); HalfConnection::handle_data_frame gate incl. network duplicates; '
+          'PacketReceiver against a reference model of the sent history for all 2-arrival (thorough: 3-arrival) schedules of a 2-packet (3-packet) history at the '
+          'id wrap (loss, duplication, reordering decided by the solver): per-channel order, at-most-once, byte-exact, Reliable never skipped. Bit corruption is C16.',
+  'note': COMMON_NOTE + 'Window of 4 slots instead of 4096 (small constructors); single-fragment packets here (fragments: C04); sender-side facts (ids, leads) are decided on PacketSender and composed in prose (DESIGN.md section 4).',
+ },
+ 'C02': {
+  'text': 'Safety half decided by the solver: a Reliable packet is delivered before any later packet of its channel and the receive window never passes an undelivered Reliable packet '
+          '(receiver model at the id wrap); resynchronisation stops at the first packet awaiting delivery; parent leads on the wire name the latest Reliable packet (PacketSender script at the wrap); '
+          'a packet-window resynchronisation is only offered with empty pending/resend queues (thorough: sync emission).',
+  'note': COMMON_NOTE + 'NOT decided: "eventually delivered within bounded time under a fair network" and resend-until-acknowledged (the sender flush path emit_data_frames could not be encoded, DESIGN.md 3.5).',
+ },
+ 'C03': {
+  'text': 'Every component entry point that network data reaches is executed with fully hostile arguments under Kani\'s panic/unwrap/index/overflow/unwinding checks: '
+          'PacketSender::acknowledge(any u32), PacketReceiver handle_datagram/receive/resynchronize(any u32), over-limit first fragment, FrameQueue acknowledge_group shapes / '
+          'advance_transfer_window(any u32) / forget_frames(any), ReorderBuffer put/advance from any valid state, RecvRateSet/LossIntervalQueue/SendRateComp with any feedback incl. RTT 0, '
+          'bisection termination, HalfConnection handle_sync_frame/handle_ack_frame with any ids; thorough adds all codec parsers on arbitrary bytes and the client/server lifecycle step. '
+          'Loop bounds are the claimed maximum work; an unwinding failure there is a violation.',
+  'note': COMMON_NOTE + 'Recorded finding F13 (hostile parent leads trip a debug assertion) is reported as KNOWN-FINDING. The sender flush path (emit_data_frames) and the socket layer are outside; sequences longer than the scripts are outside.',
+ },
+ 'C04': {
+  'text': 'Reassembly on the real AssemblyWindow/FragmentBuffer: a duplicated fragment with different contents never overwrites the first copy (both fragment positions); a datagram whose header disagrees '
+          'with the first fragment seen (any field values) never changes the result; the produced packet has the summed length and the genuine bytes in place; produced exactly once. '
+          'Thorough adds: datagram encodings at all class thresholds never exceed 1472 bytes (codec round trips), slicing/size arithmetic for every length, dealloc layout of the reassembled buffer.',
+  'note': COMMON_NOTE + 'Two-fragment packets (1448 + small); more than 2 fragments and flush-budget cuts across flushes (sender flush path) are outside.',
+ },
+ 'C05': {
+  'text': 'Ideal-network composition links decided by the solver: PacketSender assigns consecutive ids in submission order with the documented leads and resend flags (two-packet scripts, all modes/channels); '
+          'PacketReceiver delivers a 3-packet in-order arrival sequence completely, once, in global order across channels for every receive() cadence; stale TimeSensitive packets are dropped by the sender without consuming ids (thorough).',
+  'note': COMMON_NOTE + 'The closed loop (acks reopening windows, pacing, bursts beyond the windows, two endpoints) is composed in prose only; wire order of one flush is outside (flush path not encodable).',
+ },
+ 'C06': {
+  'text': 'Receive allocation invariant on the real AssemblyWindow for hostile datagrams (every header field any, claimed fragment counts up to 65536): alloc = sum over slots <= max_receive_alloc rounded up, '
+          'over-limit packets allocate nothing, clear() returns a slot\'s bytes; a partial packet is released when the window passes it; sender and receiver charge the same fragment-rounded size for EVERY packet length; '
+          'the sender never exceeds the advertised packet window and reopens after a full acknowledgement. The unbounded ack-group queue is reported as KNOWN-FINDING F12.',
+  'note': COMMON_NOTE + 'Library counters and buffer lengths, not allocator overhead. 4 slots. F13 (data kept for a passed id under hostile leads, release builds) is a recorded finding.',
+ },
+ 'C07': {
+  'text': 'Client and server handshake handlers of the real code, all frame fields symbolic: Connect only for a SYN-ACK echoing our nonce / an ACK returning the server\'s freshly drawn nonce from the same address; '
+          'exactly one Connect; refusals carry the matching error and echo the nonce; forged, stale or duplicate handshake frames never create, reset or replace a connection; both ends hand the connection mirrored '
+          'start ids and limits (tx rate = min(local send, peer receive), alloc limits, windows).',
+  'note': COMMON_NOTE + 'Environment models (DESIGN.md 3.3): opaque connection object recording its Config, ghost-logged socket, 4-slot map for HashMap, any-u32 nonce source, CRC stubbed in these obligations (codec: C16). '
+          'Handlers are driven directly (not through step() and real sockets). One documented tool artefact (spurious __rust_dealloc failure in unrelated drop glue) is filtered for these harnesses.',
+ },
+ 'C08': {
+  'text': 'Event grammar of the client decided inductively: ONE operation (any frame of the nine types with any fields, a timer evaluation at any time, any application call) from ANY lifecycle state '
+          'emits only monitor-legal events (no Receive/Disconnect before Connect, at most one terminal event, nothing after it, no second Connect) and lands in a state consistent with them. '
+          'Server side: handshake/no-reset obligations (thorough).',
+  'note': COMMON_NOTE + 'Opaque connection model (receive() delivers 0..1 packets per call). The server\'s per-address grammar is only covered through the handshake, disconnect and limit scripts, not inductively.',
+ },
+ 'C09': {
+  'text': 'Client disconnect logic decided for all inputs: a Disconnect frame is transmitted in Flush mode only in a step where is_send_pending() answered false, at once in Now mode; received packets are drained before closing; '
+          'a peer Disconnect is acknowledged, ends the connection at once and nothing is delivered after it; retry budget: Error(Timeout) only after exactly 10 resends each >= 2 s apart (>= 22 s), and every step at or past a deadline resends or terminates (12-step script, all times symbolic).',
+  'note': COMMON_NOTE + 'Opaque connection model: what is_send_pending()==false means on the real HalfConnection (queues empty) is read off the code (one line) — the flush path itself is not encodable. Server-side disconnect paths are not claimed.',
+ },
+ 'C10': {
+  'text': 'Client active timeout both ways for any handshake duration and any frame/timer times (Timeout implies >= active_timeout_ms of silence; that much silence implies Timeout in this step); '
+          'handshake retry budget (12-step script, all times symbolic); keepalive emission on the real HalfConnection::emit_sync_frame from any sender state (sync frame written and idle timer restarted once idle >= max(RTO, interval, 10 s) with credit).',
+  'note': COMMON_NOTE + 'Handlers driven directly with now_ms as a parameter (the order of calls inside step() is not covered); "never times out while keepalives flow" is a composition argument; server-side timers not claimed.',
+ },
+ 'C11': {
+  'text': 'Recovery LINKS only (necessary conditions), each decided for all inputs: sync frame requests (frame/packet ids) are emitted when frames/packets are outstanding and the line is idle; the receiver resynchronises both windows for ids within one window and ignores the rest; '
+          'every sync frame is answered by an ack frame carrying both bases even with no ack group queued; the sender\'s transfer/packet windows reopen on a covering acknowledgement; the rate never drops below s/64 and the no-feedback timer is re-armed.',
+  'note': COMMON_NOTE + 'The liveness property itself (no permanent stall, not pinned at minimum rate) is NOT decided: chaining of the links over an unbounded fault sequence is prose (DESIGN.md section 5, C11).',
+ },
+ 'C12': {
+  'text': 'Sender-queue level: resend flag exactly for Persistent/Reliable; a TimeSensitive packet queued under an earlier flush id is never handed out, for any queue position / flush ids, single- and multi-fragment. '
+          'Thorough adds: an acknowledged frame marks exactly its fragments (what stops retransmission) and PacketSender::acknowledge releases packets the receiver moved past, across the id wrap.',
+  'note': COMMON_NOTE + 'Per-fragment transmission counts on the wire (at most once / until acknowledged) need the flush path (emit_data_frames), which could not be encoded: outside the claim, as is finding F14 (DESIGN.md section 7).',
+ },
+ 'C13': {
+  'text': 'Per-step facts decided by the solver: nothing is transmitted on negative credit and every transmitted byte is debited (ack and sync emitters, all credit values); no frame exceeds 1472 bytes; '
+          'X <= ceiling after every rate update (feedback on an RTT grid, no-feedback expiry fully symbolic); the ceiling handed to the connection is min(local max_send_rate, peer max_receive_rate) on both endpoints (thorough).',
+  'note': COMMON_NOTE + 'The interval inequality (telescoping over steps), fill_flush_alloc\'s float arithmetic and the data emitter path are NOT decided by the solver.',
+ },
+ 'C14': {
+  'text': 'One call of SendRateComp::step from any state with MIN <= X <= ceiling: no-feedback expiry fully symbolic (keeps or halves, never below s/64, never above the ceiling, never increases; slow start and equation phase), '
+          'no change before the expiry, initial state; feedback steps with RTT state/sample (and p) on a concrete grid and X, receive rate, ceiling, flags, times symbolic: 0.9/0.1 RTT average, at most doubling or initial window, no doubling sooner than one RTT, '
+          'X <= max(X_eqn(R,p), s/64); bisection terminates.',
+  'note': COMMON_NOTE + 'Float behaviour off the RTT/p grid is outside; loss-interval history fidelity to RFC 5348 section 5 is outside. RTT estimates <= 1e9 s (every sample is < 2^40 ms).',
+ },
+ 'C15': {
+  'text': 'FrameQueue::acknowledge_group on a 2-frame log, per bitfield shape with nonces/sizes/times symbolic: a group covering unknown ids or with the wrong nonce parity changes nothing observable (acked flags, fragment flags, feedback, reorder/loss state); '
+          'a genuine group acknowledges exactly the claimed frames; a replayed group changes nothing and produces no sample; in an overlapping group only newly acknowledged frames contribute to the RTT / receive-rate sample; receiver-side group bookkeeping (nonce XOR) from any state.',
+  'note': COMMON_NOTE + 'Shapes listed in the evidence; logs longer than 2 frames are outside. That the emitted nonce is the logged random one is outside (flush path).',
+ },
+ 'C16': {
+  'text': 'Codec of the real code: round trip for every scalar frame type (all field values), ack frames with 0..2 groups, data frames with datagrams of every encoding class at the threshold lengths (fields symbolic), exact selected encoding size; '
+          'Frame::read on arbitrary bytes (length <= 24, all parsers) never panics and accepts exactly one well-formed frame; CRC gate; CRC lemmas on the real table step (equals the bit-serial LFSR, affine, parity-preserving, no cancellation by a clean byte) '
+          'giving: every odd-weight error pattern is rejected at every length; all <=4-bit patterns on 8 data bytes.',
+  'note': COMMON_NOTE + 'crc::compute is an uninterpreted constant in the round-trip/parse obligations (its strength is decided by the lemmas). 2- and 4-bit patterns in frames longer than 12 bytes are NOT decided (number-theoretic fact about the polynomial).',
+ },
+ 'C17': {
+  'text': 'Server limit scripts on the real handlers: limits (2,1) with SYN A, SYN B, ACK A, ACK B (many SYNs before any ACK) never exceed either limit; limits (1,1) refuse the second SYN with ServerFull; '
+          'capacity returns after drop() or Disconnect + closed timeout and a new handshake completes.',
+  'note': COMMON_NOTE + 'Environment models as for C07; at most 4 tracked addresses, scripts of <= 5 events; larger populations are outside.',
+ },
+ 'C18': {
+  'text': 'Potential-function step on the real server handlers: for an address that is untracked or pending, any frame of any type (fields any) or a timer evaluation never lets bytes sent (plus 25 x resends still owed) gain on bytes received; '
+          'every received datagram adds >= 5 bytes of margin; an undersized SYN (any length != 1467 payload bytes) is not a SYN.',
+  'note': COMMON_NOTE + 'Received sizes are the exact wire sizes per frame type (decided by the codec obligations); environment models as for C07.',
+ },
+ 'C19': {
+  'text': 'Kani\'s allocator model (dealloc layout must equal the allocation layout) on the only unsafe-adjacent path: FragmentBuffer finalize + drop of the returned box for sizes that are and are not multiples of the fragment size.',
+  'note': COMMON_NOTE + 'Verdicts of this class cannot be confirmed natively (the system allocator ignores the size): reported as KANI-ONLY after reading. Leak freedom on teardown of Client/Server and the unsafe impl Send/Sync are NOT decided.',
+ },
+ 'C20': {
+  'text': 'PacketSender accounting scripts: total_size() counts accepted bytes, drops exactly the payload size of a discarded stale TimeSensitive packet (single- and multi-fragment), drops exactly the acknowledged packets for ANY acknowledged id at the 20-bit wrap, never underflows (overflow checks on), and is zero after a full acknowledgement.',
+  'note': COMMON_NOTE + 'Scripts of 2 packets; HalfConnection/Client/RemoteClient accessors forward this counter (read off the code).',
  },
 }
 
-NOT_APPLICABLE = {p: PENDING for p in ['C02','C03','C04','C05','C06','C07','C08','C09','C10','C11','C12','C13','C14','C15','C16','C17','C18','C19','C20']}
+NOT_APPLICABLE = {}
